@@ -1,6 +1,7 @@
 package main
 
 import (
+	"math/rand"
 	"bytes"
 	"net"
 	"fmt"
@@ -122,6 +123,7 @@ func c05Inject(c *Ctx) {
 			c.Count(id, v != "none", "stream:inject", "inject:"+v+":"+outcome)
 		}
 	}
+	c05ReverifyReplay(c, acc, ident, sr.AccLTPK, aid, iid, sw, &remote)
 	// ---- cross-session replay: everything a genuine controller put on the wire in one session (pair-verify start and
 	// finish, then the encrypted request that switches the lamp) is sent again, byte for byte, on a new connection
 	for i := 0; i < c.Pick(3, 40); i++ {
@@ -172,6 +174,70 @@ func c05Inject(c *Ctx) {
 				map[string]interface{}{"recorded_writes": len(rec.writes)}, "pair-verify finish refused on the new connection; nothing executed", fmt.Sprintf("remote update callback ran %d time(s); %d of %d replayed messages were answered", got-before, answered, len(rec.writes)))
 		}
 		c.Count(id, true, "stream:inject", fmt.Sprintf("inject:replay-session:answered=%d/%d", answered, len(rec.writes)))
+	}
+}
+
+// c05ReverifyReplay: a controller verifies, writes a characteristic, and verifies AGAIN on the same connection with the
+// same ephemeral key (the library's own client controller does that when it is used twice). The second exchange must
+// end in a session of its own: if it has the keys of the first one, with the frame counters back at zero, the
+// adversary's copy of the first session's frame 0 is a valid frame 0 of the second.
+func c05ReverifyReplay(c *Ctx, acc *e2eAcc, ident *refIdentity, accLTPK []byte, aid, iid uint64, sw *accessory.Switch, remote *int32) {
+	for i := 0; i < c.Pick(2, 12); i++ {
+		id := fmt.Sprintf("inject#reverify-replay.%d", i)
+		if c.Skip(id) {
+			continue
+		}
+		cl, err := acc.Dial()
+		if err != nil {
+			continue
+		}
+		rec := &recConn{Conn: cl.conn}
+		cl.conn = rec
+		seed := c.CaseRng("reverify-replay", i).Int63()
+		vr := refPairVerify(rand.New(rand.NewSource(seed)), cl.Post(), ident, accLTPK)
+		if vr.Shared == nil {
+			c.Violate("paired reference controller cannot verify", id, nil, "verified", vr.ErrAt)
+			cl.Close()
+			continue
+		}
+		cl.Upgrade(vr.Shared)
+		body := fmt.Sprintf(`{"characteristics":[{"aid":%d,"iid":%d,"value":%v}]}`, aid, iid, i%2 == 0)
+		nBefore := len(rec.writes)
+		if m, err := cl.Do("PUT", "/characteristics", "application/hap+json", []byte(body)); err != nil || m.Status != 204 {
+			c.Violate("verified reference controller cannot write a characteristic", id, nil, "204", fmt.Sprint(m, err))
+			cl.Close()
+			continue
+		}
+		var frame0 []byte
+		for _, w := range rec.writes[nBefore:] {
+			frame0 = append(frame0, w...)
+		}
+		// the second exchange, through the first session, with the same ephemeral key (same seed)
+		vr2 := refPairVerify(rand.New(rand.NewSource(seed)), cl.Post(), ident, accLTPK)
+		in := map[string]interface{}{"steps": []string{"pair-verify", "PUT (recorded by the adversary)", "pair-verify again on the same connection, same controller ephemeral key", "the adversary sends the recorded bytes of the PUT"}}
+		if vr2.Shared == nil {
+			// refusing a second exchange is a way of having no second session
+			c.Count(id, true, "stream:inject", "inject:reverify-replay:second-verify-refused")
+			cl.Close()
+			continue
+		}
+		cl.Upgrade(vr2.Shared)
+		if bytes.Equal(vr.Shared, vr2.Shared) {
+			c.Violate("two pair-verify exchanges on one connection end in the same session keys (the accessory's ephemeral key is not renewed): the frame counters restart under the same key", id, in, "a shared secret of its own per exchange", "the same shared secret")
+		}
+		sw.Switch.On.SetValue(i%2 != 0) // the owner switches back; the replayed write would be a change again
+		before := atomic.LoadInt32(remote)
+		rec.Conn.SetDeadline(time.Now().Add(700 * time.Millisecond))
+		rec.Conn.Write(frame0)
+		buf := make([]byte, 65536)
+		n, _ := rec.Conn.Read(buf)
+		time.Sleep(20 * time.Millisecond)
+		cl.Close()
+		if got := atomic.LoadInt32(remote); got != before {
+			c.Violate("a frame of an earlier session of the same connection, sent again after a second pair-verify, is decrypted and executed", id, in, "stream error; nothing executed",
+				fmt.Sprintf("remote update callback ran %d time(s); %d answer bytes", got-before, n))
+		}
+		c.Count(id, true, "stream:inject", fmt.Sprintf("inject:reverify-replay:answer-bytes=%d", n))
 	}
 }
 
